@@ -371,6 +371,10 @@ def run_case(ctx, case):
             Version(a)
         except InvalidVersion:
             raise harness.Skip("announced-not-pep440")
+        two_digit = [n for n in ref.parts_in(ref.parse_pattern(proj.vp)) if n in ("YY", "0Y", "GG", "0G")]
+        if two_digit and any((st2.get(k) or 1) % 100 == 0 for k in ("year_y", "year_g")):
+            # the update date left the domain of two-digit year parts (2001-2099): year `00` (see DESIGN 10.6)
+            raise harness.Skip("two-digit-year-wraps")
         probs = projects.check_after(proj, harness.snapshot(d), st2, a)
         n = sum(1 for pl in proj.plants if pl.kind == "pep440")
         ctx.counters["file_occurrences_checked"] += n
